@@ -15,7 +15,7 @@ from sx import instr, explore, driver
 from sx.sym import SymStr, Sym, lift, to_bool_term, SxUnsupported
 
 PROPERTY = 'C10'
-FUNCTIONS = ['taskchain.task._find_task_full_name', 'taskchain.chain.Chain.get', 'taskchain.chain.Chain.__contains__',
+FUNCTIONS = ['taskchain.chain.Chain._process_dependencies', 'taskchain.task._find_task_full_name', 'taskchain.chain.Chain.get', 'taskchain.chain.Chain.__contains__',
              'taskchain.chain.Chain.__getattr__', 'taskchain.task.InputTasks']
 EXPLANATION = ('Bounded symbolic execution of the real _find_task_full_name / Chain.get / Chain.__contains__ with '
                'identifier-valued name components of unbounded length as SMT string variables; each path ends in the '
@@ -26,7 +26,7 @@ ASSUMPTIONS = ['name components are arbitrary non-empty strings that do not cont
                'InputTasks (a real dict) is driven with one concrete solver witness per explored path, not symbolically']
 OUTSIDE = ['more than 3 (quick) / 4 (thorough) candidate names at once', 'namespace or group depth above 2',
            'names containing characters outside identifiers']
-REACH = ['find:result', 'chain.get', 'inputtasks:witness']
+REACH = ['find:result', 'chain.get', 'inputtasks:witness', 'resolved-in-own-namespace']
 
 
 def bounds(tier):
@@ -68,6 +68,9 @@ def cases(tier):
             if q[0] == 'mix':
                 continue
             out.append((sh, q, True))
+    for form in ('name', 'class', 'qualified'):
+        for depth in (0, 1, 2):
+            out.append(('deps', form, depth))
     if tier == 'thorough':
         for sh in itertools.product(SHAPES1, repeat=4):
             for q in queries(sh):
@@ -138,6 +141,11 @@ def ref_less_nested(c, t):
 
 
 def run_case(case, tier):
+    if case[0] == 'deps':
+        # a dependant's inputs are resolved through Chain._process_dependencies: same symbolic harness as C08 (a)
+        from checks import c08
+        ctx = explore.explore(c08.sym(('sym', case[1], case[2])), max_paths=2000, decide_timeout_ms=30000)
+        return driver.result_from_ctx(ctx)
     instr.install(full=True)
     import taskchain.task as T
     import taskchain.chain as C
@@ -240,6 +248,12 @@ def run_case(case, tier):
 
 def replay_spec(v):
     i = v['info']
+    if 'names' not in i:
+        # a counterexample of the dependant-input harness (shared with C08): replayed by the generic mechanism
+        import ast
+        c = ast.literal_eval(v['case'])
+        return {'module_override': 'checks.c08', 'case': repr(('sym', c[1], c[2])), 'label': v['label'],
+                'inputs': v.get('model'), 'info': i}
     return {'names': i['names'], 'query': i['query'], 'dn': i['dn'], 'via': i.get('via', 'find')}
 
 
